@@ -184,6 +184,19 @@ func introspectionCheck(prop string, file []byte) *Outcome {
 					}
 				}
 				remaining -= int64(ch.Pages[j].Header.Data.NumValues)
+				// n = 0 ("the header at this offset"): whatever comes back must be a non-empty prefix of the headers that start here
+				hs0, err := parquet.PageHeadersAtOffset(r, ch.Pages[j].Offset, 0)
+				if err != nil {
+					return viol(prop+"/atoffset-error", "PageHeadersAtOffset(rg %d col %d page %d, n=0): %v", gi, ci, j, err)
+				}
+				if len(hs0) == 0 || len(hs0) > len(ch.Pages)-j {
+					return viol(prop+"/atoffset-count", "PageHeadersAtOffset(rg %d col %d page %d, n=0) returned %d headers, the chunk has %d from there", gi, ci, j, len(hs0), len(ch.Pages)-j)
+				}
+				for k := range hs0 {
+					if a, b := canon(convPageHeader(&hs0[k])), canon(ch.Pages[j+k].Header); a != b {
+						return viol(prop+"/atoffset-mismatch", "PageHeadersAtOffset(rg %d col %d page %d, n=0)[%d] differs:\n lib: %s\n ref: %s", gi, ci, j, k, a, b)
+					}
+				}
 			}
 		}
 	}
